@@ -16,6 +16,7 @@ import (
 	"os"
 	"os/exec"
 	"sync"
+	"sync/atomic"
 	"time"
 )
 
@@ -61,10 +62,10 @@ type Crash struct {
 
 type Options struct {
 	Kind        string
-	Env         []string      // extra environment for the children (KEY=VALUE)
+	Env         []string // extra environment for the children (KEY=VALUE)
 	Workers     int
 	Batch       int           // cases per round trip
-	CaseTimeout time.Duration // watchdog per batch = CaseTimeout * len(batch) (min 20 s)
+	CaseTimeout time.Duration // the child is killed when no result arrives for 10 x CaseTimeout (min 20 s)
 	OnResult    func(caseLine, result []byte)
 	OnCrash     func(c Crash)
 }
@@ -129,13 +130,15 @@ func runBatch(c *child, o *Options, batch [][]byte) (got int, reason string) {
 	}
 	w.WriteString("FLUSH\n")
 	done := make(chan struct{})
-	timeout := o.CaseTimeout * time.Duration(len(batch))
-	if timeout < 20*time.Second {
-		timeout = 20 * time.Second
+	// progress watchdog: the child is killed when no result arrives for this long (a hang then costs one limit, not the whole
+	// batch's allowance); the first result of a fresh child gets extra time for start-up and compilation
+	limit := o.CaseTimeout * 10
+	if limit < 20*time.Second {
+		limit = 20 * time.Second
 	}
-	timedOut := false
-	timer := time.AfterFunc(timeout, func() {
-		timedOut = true
+	var timedOut int32
+	timer := time.AfterFunc(limit+20*time.Second, func() {
+		atomic.StoreInt32(&timedOut, 1)
 		c.cmd.Process.Kill()
 	})
 	go func() {
@@ -146,11 +149,12 @@ func runBatch(c *child, o *Options, batch [][]byte) (got int, reason string) {
 		line, err := c.out.ReadBytes('\n')
 		if err != nil {
 			timer.Stop()
-			if timedOut {
+			if atomic.LoadInt32(&timedOut) == 1 {
 				return got, "timeout"
 			}
 			return got, "crash"
 		}
+		timer.Reset(limit)
 		o.OnResult(batch[got], bytes.TrimRight(line, "\n"))
 		got++
 	}
@@ -193,6 +197,13 @@ func Run(o Options, cases <-chan []byte) error {
 
 	var wg sync.WaitGroup
 	var firstErr error
+	var nTimeouts, nConfirmed, nSkipped int32
+	const maxTimeouts = 24
+	defer func() {
+		if n := atomic.LoadInt32(&nSkipped); n > 0 {
+			userCrash(Crash{Reason: fmt.Sprintf("unconfirmed-aborted: %d cases not run after %d time-outs", n, atomic.LoadInt32(&nTimeouts))})
+		}
+	}()
 	for w := 0; w < o.Workers; w++ {
 		wg.Add(1)
 		go func() {
@@ -210,9 +221,18 @@ func Run(o Options, cases <-chan []byte) error {
 							return
 						}
 					}
+					if atomic.LoadInt32(&nTimeouts) >= maxTimeouts {
+						// enough hangs have been established: the rest of the universe is not run (each further hang would
+						// cost a watchdog period); the caller sees the confirmed ones and the count of skipped cases
+						atomic.AddInt32(&nSkipped, int32(len(batch)))
+						break
+					}
 					got, reason := runBatch(c, &o, batch)
 					if reason == "" {
 						break
+					}
+					if reason == "timeout" {
+						atomic.AddInt32(&nTimeouts, 1)
 					}
 					// batch[got] is the suspect; confirm it alone in a fresh child
 					st := c.stderr.String()
@@ -220,15 +240,22 @@ func Run(o Options, cases <-chan []byte) error {
 					c = nil
 					suspect := batch[got]
 					batch = batch[got+1:]
+					if reason == "timeout" && atomic.LoadInt32(&nConfirmed) >= 4 {
+						o.OnCrash(Crash{Case: suspect, Stderr: st, Reason: "unconfirmed-timeout (four hangs already confirmed alone; not re-run)"})
+						continue
+					}
 					cc, err := start(&o)
 					if err == nil {
 						// alone, with a generous limit: a time-out is a verdict only if the case also hangs by itself
 						oc := o
-						if oc.CaseTimeout < 120*time.Second {
-							oc.CaseTimeout = 120 * time.Second
+						if oc.CaseTimeout < 6*time.Second {
+							oc.CaseTimeout = 6 * time.Second // x10 = one minute without a result
 						}
 						g2, r2 := runBatch(cc, &oc, [][]byte{suspect})
 						if r2 != "" && g2 == 0 {
+							if r2 == "timeout" {
+								atomic.AddInt32(&nConfirmed, 1)
+							}
 							o.OnCrash(Crash{Case: suspect, Stderr: cc.stderr.String(), Reason: r2})
 						} else if r2 == "" {
 							// not reproducible alone: report with the original stderr as unconfirmed
